@@ -49,10 +49,10 @@ where
     {
         let mut digested = util::CrcDigestRead::new(input, &mut digest);
         let backward_size = digested.read_u32::<LittleEndian>()?;
-        if index_size as u32 != (backward_size + 1) << 2 {
+        if index_size as u64 != (u64::from(backward_size) + 1) << 2 {
             return Err(error::Error::XzError(format!(
                 "Invalid index size: expected {} but got {}",
-                (backward_size + 1) << 2,
+                (u64::from(backward_size) + 1) << 2,
                 index_size
             )));
         }
